@@ -93,10 +93,16 @@ fn render2<F: Function + RenderHints + MathFunction + Clone>(cx: &mut Cx, backen
     let shape = Shape::<F>::new(&b.ctx, b.root).unwrap();
     let cfg = pixel::RenderConfig { image_size: ImageSize::new(w, h), world_to_model: view, pixel_perfect: perfect, z };
     let tp = if threads > 0 { Some(pool(threads)) } else { None };
-    let ecfg = pixel::EvalConfig { tile_sizes: Some(TileSizes::new(tiles).unwrap()), threads: tp.as_ref(), cancel: Default::default() };
     let vars = ShapeVars::<f32>::new();
     let bound = shape.bind(&vars).unwrap();
-    let r = vharness::catch(std::panic::AssertUnwindSafe(|| pixel::render(bound, &cfg, &ecfg)));
+    // an empty tile list stands for the default evaluation configuration (the backend's own tile sizes, the global
+    // pool), reached through the convenience entry point RenderConfig::run
+    let r = if tiles.is_empty() {
+        vharness::catch(std::panic::AssertUnwindSafe(|| Some(cfg.run(bound))))
+    } else {
+        let ecfg = pixel::EvalConfig { tile_sizes: Some(TileSizes::new(tiles).unwrap()), threads: tp.as_ref(), cancel: Default::default() };
+        vharness::catch(std::panic::AssertUnwindSafe(|| pixel::render(bound, &cfg, &ecfg)))
+    };
     let m4 = mat3_to_4(&cfg.mat());
     let pts: Vec<(f32, f32, f32)> = (0..h).flat_map(|j| (0..w).map(move |i| (i as f32, j as f32, z))).collect();
     let reference = reference(b, &m4, &pts);
@@ -197,6 +203,14 @@ fn c06(cx: &mut Cx, bitmaps: &str, quick: bool, rng: &mut Rng) {
         if k % 2 == 0 { render2::<VmFunction>(cx, "vm", &b, w, h, tl, Matrix3::identity(), k % 4 == 1, 0.0, [0, 1, 3][k % 3]); }
         else { render2::<JitFunction>(cx, "jit", &b, w, h, tl, Matrix3::identity(), k % 4 == 1, 0.0, [0, 2, 7][k % 3]); }
     }
+    // (b2) the default evaluation configuration through RenderConfig::run, on images larger than the backends' root tiles
+    for (k, (w, h)) in [(300u32, 140u32), (129, 257), (64, 64), (260, 131)].iter().enumerate() {
+        let n = 2 + k;
+        let b = shapes::random_csg2(rng, n);
+        let view = random_view2(rng, k % 3);
+        if k % 2 == 0 { render2::<VmFunction>(cx, "vm", &b, *w, *h, &[], view, k % 3 == 0, 0.0, 0); }
+        render2::<JitFunction>(cx, "jit", &b, *w, *h, &[], view, k % 3 == 1, 0.0, 0);
+    }
     // (c) CSG, NaN-interval shapes and bundled models with views, sizes, tile lists, pools
     let n = if quick { 300 } else { 3000 };
     for k in 0..n {
@@ -229,13 +243,27 @@ fn render3<F: Function + RenderHints + MathFunction + Clone>(cx: &mut Cx, backen
     let shape = Shape::<F>::new(&b.ctx, b.root).unwrap();
     let cfg = voxel::RenderConfig { image_size: VoxelSize::new(w, h, d), world_to_model: view };
     let tp = if threads > 0 { Some(pool(threads)) } else { None };
-    let ecfg = voxel::EvalConfig { tile_sizes: Some(TileSizes::new(tiles).unwrap()), threads: tp.as_ref(), cancel: Default::default() };
     let vars = ShapeVars::<f32>::new();
     let bound = shape.bind(&vars).unwrap();
-    let r = vharness::catch(std::panic::AssertUnwindSafe(|| voxel::render(bound, &cfg, &ecfg)));
+    let r = if tiles.is_empty() {
+        vharness::catch(std::panic::AssertUnwindSafe(|| Some(cfg.run(bound))))
+    } else {
+        let ecfg = voxel::EvalConfig { tile_sizes: Some(TileSizes::new(tiles).unwrap()), threads: tp.as_ref(), cancel: Default::default() };
+        vharness::catch(std::panic::AssertUnwindSafe(|| voxel::render(bound, &cfg, &ecfg)))
+    };
     let m4 = cfg.mat();
-    // brute force over the grid and one root tile beyond its top
-    let t0 = tiles[0] as u32;
+    // brute force over the grid and one root tile beyond its top (default configuration: the backend's own root tile)
+    // The renderer drops leading tile sizes that are larger than it needs for the image ("trims items off the front of the
+    // list based on the image size": the root tile is the smallest size that is not below max(width, height), or the
+    // largest of the list).  The overhang above the grid is that of the root tile actually used; what lies between it
+    // and the top of the untrimmed root tile is never looked at by one renderer and looked at by another: left out.
+    let default_tiles = F::tile_sizes_3d();
+    let list: &[usize] = if tiles.is_empty() { &default_tiles[0..] } else { tiles };
+    let eff = {
+        let i = list.iter().position(|t| *t < w.max(h) as usize).unwrap_or(list.len()).saturating_sub(1);
+        list[i] as u32
+    };
+    let t0 = list[0] as u32;
     let ztop = d + t0;
     let pts: Vec<(f32, f32, f32)> = (0..h).flat_map(|j| (0..w).flat_map(move |i| (0..=ztop).map(move |k| (i as f32, j as f32, k as f32)))).collect();
     let vals = reference(b, &m4, &pts);
@@ -252,14 +280,16 @@ fn render3<F: Function + RenderHints + MathFunction + Clone>(cx: &mut Cx, backen
             let top = (0..d as usize).rev().find(|k| c[*k] < 0.0);
             // root tiles overhang a depth that is not a multiple of the root tile size: a negative voxel between the
             // grid depth and the top of the last root tile is a hit above the grid, reported clamped to the grid depth
-            let ztile = ((d + t0 - 1) / t0 * t0) as usize;
+            let ztile = ((d + eff - 1) / eff * eff) as usize;
+            let zmax = ((d + t0 - 1) / t0 * t0) as usize;
             let over = (d as usize..ztile).any(|k| c[k] < 0.0);
             let dref = if over { d as i64 } else { top.map(|k| k as i64 + 1).unwrap_or(0) };
             ref_depth.push(dref);
             // the normal of a column that is still negative at or above the top of the grid is not stated
             clamped.push(over || (d as usize..=ztile).any(|k| c[k] < 0.0));
             // undecidable above the grid: a NaN or a value within the rounding band there
-            excluded.push((d as usize..=ztile).any(|k| c[k].is_nan() || (c[k] != 0.0 && c[k].abs() < band)));
+            excluded.push((d as usize..=ztile).any(|k| c[k].is_nan() || (c[k] != 0.0 && c[k].abs() < band))
+                || (!over && (ztile..=zmax.max(ztile)).any(|k| c[k] < 0.0 || c[k].is_nan())));
             // a voxel at or above the reference surface that is within the rounding band (or NaN) makes the column ambiguous
             ambiguous.push(c.iter().enumerate().any(|(k, v)| (k as i64 + 1 >= dref) && ((*v != 0.0 && v.abs() < band) || v.is_nan())));
             if let (Some(k), false) = (top, over) { hits.push(((j * w + i) as usize, (i as f32, j as f32, k as f32))); }
@@ -420,6 +450,12 @@ fn c07(cx: &mut Cx, voxsets: &str, quick: bool, rng: &mut Rng) {
             if k % 2 == 0 { render3::<VmFunction>(cx, "vm", &b, *size, tl, Matrix4::identity(), 0); }
             else { render3::<JitFunction>(cx, "jit", &b, *size, tl, Matrix4::identity(), [0, 2][k % 3 % 2]); }
         }
+    }
+    // (a2) the default evaluation configuration through RenderConfig::run (the backends' own tile sizes, global pool)
+    for (k, size) in [(70u32, 66u32, 72u32), (40, 33, 130)].iter().enumerate() {
+        let b = stacked(rng, k);
+        if k % 2 == 0 { render3::<VmFunction>(cx, "vm", &b, *size, &[], Matrix4::identity(), 0); }
+        render3::<JitFunction>(cx, "jit", &b, *size, &[], Matrix4::identity(), 0);
     }
     let sizes: [(u32, u32, u32); 8] = [(8, 8, 8), (13, 9, 12), (16, 16, 16), (24, 16, 40), (12, 20, 7), (32, 32, 32), (9, 9, 25), (16, 8, 24)];
     let n = if quick { 250 } else { 2500 };
